@@ -5,7 +5,8 @@ from gen import litmus
 def run(ctx):
     ctx.prove(ctx.theorems())
     ctx.build_harness()
-    programs = litmus.family(ctx.seed ^ 3, ctx.quick)
+    from gen import corpus
+    programs = list(dict.fromkeys(corpus.corpus('C03') + litmus.family(ctx.seed ^ 3, ctx.quick)))
     ctx.assumptions.append("Spec/RC11.lean (`doc` instance: SeqCst accesses as acquire/release, SeqCst fences in psc) is "
                            "trusted as the meaning of 'C11 allows'; values stored to a location are distinct, so the "
                            "outcome determines reads-from")
